@@ -129,7 +129,8 @@ def rel_case(g, props, a_flags, b_flags, suffix="", entries=("",), alphabet=None
     peg_b = gspec.print_peg(g, "b")
     a_rel, b_rel, h_rel = cid + "/a", cid + "/b", cid + "/hx"
     src = relharness.rel_src(cid, a_rel, b_rel, alphabet or refharness.alphabet_for(g), props,
-                             state_keys=gspec.state_keys(g), uses_fault=gspec.uses_fault(g), entries=entries,
+                             state_keys={k: v for k, v in gspec.state_keys(g).items() if k not in (g.get("noinit_keys") or [])},
+                             uses_fault=gspec.uses_fault(g), entries=entries,
                              budget_exprs=count_exprs(g))
     names = ["Harness_" + p for p in props]
     return catcheck.Case(cid, [(a_rel, peg_a, a_flags), (b_rel, peg_b, b_flags)], h_rel, {"h.go": src}, names,
@@ -213,7 +214,7 @@ def check_C17(tier, seed):
 
 
 def check_C02(tier, seed):
-    return run_ref_property("C02", tier, seed, cores.context_catalogue() + cores.composites(), ["C02"], 3, 5)
+    return run_ref_property("C02", tier, seed, cores.context_catalogue() + cores.composites(), ["C02"], 4, 5, tq=120)
 
 
 def check_C05(tier, seed):
@@ -307,7 +308,7 @@ def check_C06(tier, seed):
     quick = tier == "quick"
     N, tmo = (3, 90) if quick else (4, 900)
     pc = cores.pair_core()
-    cat = (pc[::4] if quick else pc) + cores.composites() + cores.fail_catalogue() + [g for g in cores.context_catalogue() if not gspec.uses_state(g)]
+    cat = cores.memo_catalogue() + (pc[::4] if quick else pc) + cores.composites() + cores.fail_catalogue() + [g for g in cores.context_catalogue() if not gspec.uses_state(g)]
     cases = [rel_case(g, ["C06"], [], []) for g in cat]
     twin = rel_case(pc[0], ["TWIN"], [], [], suffix="_twin")
     catcheck.prepare(w, cases + [twin])
